@@ -172,6 +172,24 @@ CHECKS = [
         "note": "Value domains are harness-side (mc/serterms.py): a Tupl element list is exactly one step of its element; rooms are connected; terms with a greedy decimal reader followed by a digit are not admitted.",
     },
     {
+        "id": "C16",
+        "engine": "E1-enumerator",
+        "category": "exploration",
+        "technique": "bounded-exhaustive enumeration of problems per codec, round-trip + independent reference decoder (differential)",
+        "text": "For 12 codecs all problems by the cap rule on boards h,w in 1..3 (+ longer lines and 4x4 in thorough) over alphabets with the encodings' boundary values, and all connected room partitions of boards <=6 (9) cells: decode(encode(p)) == p with dimensions, URL shape name/width/height/body, an independent pzpr decoder reads the body back as the same problem, legacy helper encoders equal the combinator text.",
+        "design_ref": "DESIGN.md section 2, C16",
+        "note": "mc/pzpr_ref.py is my transcription of the pzpr encodings, anchored on the real-world URLs quoted in the repository (selftest); pzpr's JavaScript is not available offline.",
+    },
+    {
+        "id": "C17",
+        "engine": "E1-enumerator",
+        "category": "exploration",
+        "technique": "bounded-exhaustive enumeration of input strings (all strings to length 4-5 over class representatives) with a totality + re-encodability oracle",
+        "text": "ALL strings up to length 4 (5) over a 16-symbol class-representative alphabet for 21 codecs/terms under every declared (h,w) in {0..3}^2, a URL-level product of scheme/host/path/name/dimension/body classes through every decoding API, and one-room/striped boards up to 64x64: outcome must be None, ValueError or a problem of the declared dimensions that re-encodes stably.",
+        "design_ref": "DESIGN.md section 2, C17",
+        "note": "Character classes instead of full Unicode; bodies longer than the bound are covered by the argument that every combinator reads left to right with at most 4 characters of lookahead.",
+    },
+    {
         "id": "C13",
         "engine": "E1-enumerator",
         "category": "exploration",
